@@ -770,6 +770,46 @@ def check_clip(ctx, Grid, case):
                       "(shape %r, xll %r, yll %r, cellsize %r)" % (tuple(pts), missing, (n2r, n2c), x2, y2, cz2))
     if (n2r, n2c) != (r0 - r1 + 1, c1 - c0 + 1):
         ctx.count("unjudged.clip.shape_differs_from_cell_box")
+    check_derived(ctx, Grid, g2, case, "clipped")
+
+
+def check_derived(ctx, Grid, g2, case, what):
+    """a grid produced by another operation (a clipped grid carries attributes describing its parent) goes through
+    the dictionary, clone and save/load itself: shape, georeferencing, type, no-data and cells must be its own"""
+    def meta(g):
+        d = np.asarray(g.data)
+        return (d.shape, float(g.cellsize), float(g.xllcorner), float(g.yllcorner), np.dtype(g.dtype).name, repr(g.nodata))
+
+    def save_load():
+        tmp = tempfile.mkdtemp(prefix="verif-c13d-")
+        try:
+            g2.save(os.path.join(tmp, "c.bil"))
+            return Grid.from_header(os.path.join(tmp, "c.hdr"))
+        finally:
+            shutil.rmtree(tmp, ignore_errors=True)
+    try:
+        m2 = meta(g2)
+        b2 = np.ascontiguousarray(g2.data).tobytes()
+    except Exception:
+        return
+    for opname, fn, cells_too in (("to_dict/from_dict", lambda: Grid.from_dict(g2.to_dict()), False),
+                                  ("clone", lambda: g2.clone(), True), ("save/from_header", save_load, True)):
+        prefix = "grid.%s:of-%s-grid" % (opname, what)
+        try:
+            g3 = fn()
+            m3 = meta(g3)
+        except Exception as e:
+            ctx.case(True)
+            ctx.violation(prefix + ":raised:%s" % type(e).__name__, case, "%s of a %s grid raised %r" % (opname, what, e))
+            continue
+        ctx.case(True, outcome=repr(m3))
+        ctx.count("derived.%s.%s" % (what, opname))
+        if m3 != m2:
+            ctx.violation(prefix + ":metadata", case,
+                          "%s of a %s grid: (shape, cellsize, xll, yll, dtype, nodata) = %r, the %s grid itself has %r" % (
+                              opname, what, m3, what, m2), observed=repr(m3), expected=repr(m2))
+        elif cells_too and np.ascontiguousarray(g3.data).tobytes() != b2:
+            ctx.violation(prefix + ":values", case, "%s of a %s grid does not hold the cells of that grid" % (opname, what))
 
 
 def run_clip_unit(unit, ctx):
